@@ -153,6 +153,16 @@ def gen_plan(rng, prof):
         run["clean_before"] = [c]
         if jobs[c]["codes"] == [0] and rng.random() < (0.95 if getattr(prof, "abort_late", False) else 0.6):
             jobs[c]["codes"] = [0, rng.choice([1, 3])]
+    # a pre-task attached to another task's output refers to the task objects of the moment: once a job is submitted
+    # again (after a failure, or in a later run) the carrier would still embed the former, failed submission.  The
+    # embedding is therefore only kept in plans without failures and with a single run.
+    if runs or any(j["codes"] != [0] for j in jobs):
+        for j in jobs:
+            for d in j["deps"]:
+                if d["how"] == "pre_on_out":
+                    d["how"] = "explicit"
+                    d.pop("carrier", None)
+                    d.pop("up_cls", None)
     plan = {"jobs": jobs, "tokens": tokens, "runs": runs + [run]}
     if tokens and rng.random() < prof.foreign:
         t0 = tokens[0]["total"]
